@@ -204,6 +204,7 @@ type execRec struct {
 	store             *wit.Store
 	reads             [][]uint64 // per task: sizes seen by its successive reads
 	logList, wantLogs []string   // final log list vs logs that hold a checkpoint
+	neverStored       []string   // refusals that carried bytes no one ever stored
 }
 
 func (rc *runCtx) build() (*sched.Exec, func() *execRec) {
@@ -335,6 +336,11 @@ func (rc *runCtx) build() (*sched.Exec, func() *execRec) {
 			}
 			if sl.spec.read && o.Kind == "read" {
 				rec.reads[sl.task] = append(rec.reads[sl.task], o.Size)
+			}
+			if !sl.spec.read && o.Kind != "accepted" && o.Cur == -3 {
+				// an update that was not accepted came back with bytes that are neither the checkpoint the log
+				// started with nor what any accepted update returned: a checkpoint that was never stored
+				rec.neverStored = append(rec.neverStored, fmt.Sprintf("%s => %s with a checkpoint of size %d that was never stored", sl.spec.desc, o.Kind, o.Size))
 			}
 			ops = append(ops, porcupine.Operation{ClientId: i, Input: in, Call: sl.op.Call, Output: o, Return: sl.op.Return})
 			rec.outs = append(rec.outs, fmt.Sprintf("%s=>%s/%d", sl.spec.desc, o.Kind, o.Cur))
@@ -584,6 +590,11 @@ func worker(run *ev.Run, scs []*scenario, keys *wit.WitKeys, stores []string, di
 				stop = violated()
 			case "unknown":
 				run.Inconclusive("porcupine timed out")
+			}
+			if len(rec.neverStored) > 0 {
+				detail["refusals"] = rec.neverStored
+				run.Violate("refusal_carries_never_stored_checkpoint;"+what, "an update that was not accepted returned a (cosigned) checkpoint that was never stored: "+rec.neverStored[0], unit, detail)
+				stop = violated() || stop
 			}
 			if fmt.Sprint(rec.logList) != fmt.Sprint(rec.wantLogs) {
 				detail["log_list"], detail["logs_with_checkpoint"] = rec.logList, rec.wantLogs
